@@ -22,6 +22,8 @@ class Node:
             return '(-%s)' % self.kids[0].fastor()
         if k == 'fn':
             return '%s(%s)' % (self.op, self.kids[0].fastor())
+        if k in ('fn2', 'cls'):
+            return '%s(%s)' % (self.op, ','.join(c.fastor() for c in self.kids))
         if k == 'not':
             return '(!%s)' % self.kids[0].fastor()
         return '(%s %s %s)' % (self.kids[0].fastor(), self.op, self.kids[1].fastor())
@@ -36,6 +38,8 @@ class Node:
             return '(-%s)' % self.kids[0].ref()
         if k == 'fn':
             return 'std::%s(%s)' % (self.op, self.kids[0].ref())
+        if k in ('fn2', 'cls'):
+            return 'std::%s(%s)' % (self.op, ','.join(c.ref() for c in self.kids))
         if k == 'not':
             return '(!%s)' % self.kids[0].ref()
         return '(%s %s %s)' % (self.kids[0].ref(), self.op, self.kids[1].ref())
@@ -108,11 +112,13 @@ CORE_FP = [
 def mk(t, n, tree, asg, tag, dest_type=None):
     cell, per = CELL[t]
     ct = CTYPE[t]
-    isbool = tree.kind in ('cmp', 'logic', 'not')
+    isbool = tree.kind in ('cmp', 'logic', 'not', 'cls')
     rt = dest_type or ('bool' if isbool else t)
     rct = CTYPE[rt]
     scalar_div = tree.has(lambda x: x.kind == 'bin' and x.op == '/' and x.kids[1].kind == 'scalar') or (asg == '/=' and tree.kind == 'scalar')
     mode = 'ALG' if (scalar_div and t in ('f32', 'f64')) else 'EXACT'
+    if tree.kind == 'fn2' and tree.op in ('min', 'max'):
+        mode = 'MINMAX'
     wit = 'extern "C" void @W@(const %s& a, const %s& b, const %s& c, %s s, %s& r){ r %s %s; }' % (tensor_t(t, [n]), tensor_t(t, [n]), tensor_t(t, [n]), ct, tensor_t(rt, [n]), asg, tree.fastor())
     rhs = tree.ref()
     stmt = {'=': 'r[p] = %s;', '+=': 'r[p] = r[p] + %s;', '-=': 'r[p] = r[p] - %s;', '*=': 'r[p] = r[p] * %s;', '/=': 'r[p] = r[p] / %s;'}[asg] % rhs
@@ -155,6 +161,28 @@ def witnesses(tier, seed):
             tree = bool_tree(rng, t)
             for n in rng_sz.sample(sizes_all, 2 if quick else 5):
                 W.append(mk(t, n, tree, '=', 'bool%d' % i))
+    # every remaining elementwise function of the library: unary math (incl. the rounding family, which has SSE4.1/AVX/AVX-512 vector forms),
+    # binary math (min, max, pow, atan2, hypot) with tensor/scalar operands on either side, classification (isinf/isnan/isfinite)
+    UN2 = ['tan', 'asin', 'acos', 'cosh', 'log2', 'expm1', 'log1p', 'asinh', 'acosh', 'atanh', 'erf', 'tgamma', 'lgamma', 'ceil', 'round', 'floor', 'trunc']
+    for t in ('f32', 'f64'):
+        for i, fn in enumerate(UN2):
+            for n in ((1, 3, 4, 7, 8, 9, 16, 17) if fn in ('ceil', 'round', 'floor', 'trunc') else (3, 8, 17)):
+                W.append(mk(t, n, Node('fn', fn, [L('a')]), ASSIGN[(i + n) % 3], 'un2'))
+            W.append(mk(t, 9, B('+', Node('fn', fn, [B('*', L('a'), L('b'))]), L('c')), '=', 'un2e'))
+        for i, fn in enumerate(['min', 'max', 'pow', 'atan2', 'hypot']):
+            mm = fn in ('min', 'max')    # min/max: compared as min/max sets (the sign of a zero result and NaN ordering are not pinned by the property)
+            for n in (1, 3, 4, 7, 8, 9, 17):
+                W.append(mk(t, n, Node('fn2', fn, [L('a'), L('b')]), '=' if mm else ASSIGN[(i + n) % 3], 'bin2tt'))
+            for n in (4, 9):
+                W.append(mk(t, n, Node('fn2', fn, [L('a'), S]), '=', 'bin2ts')); W.append(mk(t, n, Node('fn2', fn, [S, L('a')]), '=', 'bin2st'))
+                W.append(mk(t, n, Node('fn2', fn, [B('+', L('a'), L('b')), B('-', L('c'), L('a'))]), '=' if mm else '+=', 'bin2ee'))
+        for fn in ('isinf', 'isnan', 'isfinite'):
+            for n in (1, 4, 7, 9, 17):
+                W.append(mk(t, n, Node('cls', fn, [L('a')]), '=', 'cls')); W.append(mk(t, n, Node('cls', fn, [B('/', L('a'), L('b'))]), '=', 'clse'))
+    for t in ('i32', 'i64'):
+        for fn in ('min', 'max'):
+            for n in (1, 3, 4, 7, 8, 9, 17):
+                W.append(mk(t, n, Node('fn2', fn, [L('a'), L('b')]), '=', 'bin2tt'))
     # a boolean-valued expression assigned INTO an arithmetic tensor with every assignment operator except '/=' (division by false)
     for t in types:
         for i, asg in enumerate(['=', '+=', '-=', '*=']):
